@@ -307,6 +307,8 @@ func main() {
 	// 2. byteslicepool, logger registry
 	checkBsp(res, rng, budget)
 	checkReg(res, drv, rng, f.Seed, budget)
+	checkBspLive(res, drv, rng, budget)
+	checkLoggerRace(res, rng, f.Seed, budget)
 
 	// 3. mixed concurrent workload against sequential results
 	workers, nops, rounds := 4, 40, 1
@@ -652,6 +654,20 @@ func replay(f lib.Flags, res *lib.Result, drv *lib.Drv) {
 		res.Note(fmt.Sprintf("bsp replay: getLen=%d foreignInGet=%v foreignAfterResize=%v recycled=%v", gl, fg, fr, rec))
 		if gl != 0 || fg || fr {
 			res.Violate(findStaleCap, fmt.Sprintf("foreign bytes inside a result's [0:len): Get=%v Get+Resize=%v", fg, fr), c)
+		}
+	case "bsp-live":
+		var c bspLiveCase
+		_ = json.Unmarshal(rp.Case, &c)
+		checkBspLiveCase(res, c)
+	case "logger-race":
+		var c loggerRaceCase
+		_ = json.Unmarshal(rp.Case, &c)
+		for k := 0; k < 5; k++ {
+			complaint, n := runLoggerRace(c, uint64(time.Now().UnixNano()))
+			res.Evaluations += n
+			if complaint != "" {
+				res.Violate(findLoggerDup, complaint, c)
+			}
 		}
 	case "conc":
 		var c struct {
